@@ -502,6 +502,75 @@ def distributed_slice(chk, quick):
                         break
 
 
+SAME_PROCESS_TAGS = ("GROUND", "ESTATE", "EALL", "EIG")
+
+
+def same_process_records(texts, variant):
+    """the eigenvalue records (ground energy, look-up by state label, concatenation, per block) of several models analysed one after
+    the other in ONE process; returns a list (one entry per model, None when the stage failed) of {tag: [records]}"""
+    h, _ = edlib.binaries(variant)
+    inp = "".join("model ops\n%s\nend\ndm\n" % t.strip() for t in texts)
+    rc, out, err = pv.run_harness(h, inp, timeout=600)
+    segs, cur = [], None
+    for l in out.split("\n"):
+        t = l.split()
+        if not t:
+            continue
+        if t[0] in ("BUILT", "ERROR"):
+            cur = {} if t[0] == "BUILT" else None
+            segs.append(cur)
+        elif cur is not None and t[0] in SAME_PROCESS_TAGS:
+            cur.setdefault(t[0], []).append(t)
+    return rc, segs
+
+
+def same_process_stage(chk, quick, good):
+    """Several Hamiltonians per process (a temperature or parameter sweep, a self-consistency loop): what one object reports must not
+    depend on which models the process diagonalised before.  good: [(variant, text, number of modes)] of scenarios the main part has
+    certified in a process of their own; they are grouped by Fock-space size, the models of a group are analysed in one process in
+    the order A B A, and every record is compared, bit for bit, with the one-model-per-process run of the same scenario."""
+    groups = {}
+    for variant, text, nm in good:
+        groups.setdefault((variant, nm), [])
+        if text not in groups[(variant, nm)]:
+            groups[(variant, nm)].append(text)
+    budget = 10 if quick else 40
+    done = 0
+    for (variant, nm), texts in sorted(groups.items()):
+        for k in range(0, len(texts) - 1, 2):
+            if done >= budget:
+                break
+            a, b = texts[k], texts[k + 1]
+            single = []
+            for t in (a, b):
+                rc, segs = same_process_records([t], variant)
+                single.append(segs[0] if rc == 0 and segs else None)
+            if single[0] is None or single[1] is None or single[0] == single[1]:
+                continue
+            rc, segs = same_process_records([a, b, a], variant)
+            done += 1
+            chk.case("same-process|%s|%s|%s" % (variant, hl.canon(a), hl.canon(b)), "two models of %d modes in one process|%s" % (nm, variant), True, None)
+            if rc != 0 or len(segs) != 3 or any(x is None for x in segs):
+                chk.violation("same-process-crash|%s|%s" % (variant, hl.canon(b)),
+                              "analysing [%s] AFTER [%s] in one process fails (rc=%s) although each model is analysed without error in a process of its own"
+                              % (hl.canon(b), hl.canon(a), rc),
+                              {"check": "C03", "kind": "same-process", "variant": variant, "scenarios": [a, b, a]})
+                continue
+            for pos, (seg, ref, t) in enumerate(zip(segs, (single[0], single[1], single[0]), (a, b, a))):
+                bad = next((tag for tag in SAME_PROCESS_TAGS if seg.get(tag) != ref.get(tag)), None)
+                if bad:
+                    got, want = seg.get(bad), ref.get(bad)
+                    i = next((i for i in range(min(len(got or []), len(want or []))) if got[i] != want[i]), 0)
+                    chk.violation("same-process|%s|%s" % (bad, variant),
+                                  "model number %d of a process ([%s], analysed after [%s]) reports %s = %s; the same model analysed in a process of its own "
+                                  "(certified against the full-space matrix by this check) reports %s"
+                                  % (pos + 1, hl.canon(t), hl.canon((a, b, a)[pos - 1]) if pos else "-", bad,
+                                     " ".join(got[i][1:6] if got else []), " ".join(want[i][1:6] if want else [])),
+                                  {"check": "C03", "kind": "same-process", "variant": variant, "scenarios": [a, b, a]})
+                    break
+    chk.extra["several_models_per_process"] = {"pairs": done, "order": "A B A", "records_compared_bit_for_bit": list(SAME_PROCESS_TAGS)}
+
+
 def run(chk):
     quick = chk.tier == "quick"
     ok, log = chk.prove(["extract/Extract_C03.vo", "extract/Extract_ED.vo"], extra_props=["Properties_C03_source.v"])
@@ -550,6 +619,7 @@ def run(chk):
     certs = []
     rel_certs = []
     sanity = []
+    good = []
     hist_facts = {"scenarios": 0, "steps": 0, "prepared_compared": 0, "eigen_systems_certified": 0, "throws": []}
     spectra = {}
     for variant, cplx, which, count in plan:
@@ -594,7 +664,10 @@ def run(chk):
             fails = fails + hfails
             if fails:
                 report(chk, family, kind, variant, text, mode, fails)
+            elif which != "tiny":
+                good.append((variant, text, nm))
         pool.shutdown()
+    same_process_stage(chk, quick, good)
     chk.extra["histories_on_one_object"] = dict(hist_facts, part_histories=hl.PART_HISTORIES, hamiltonian_histories=hl.HAM_HISTORIES,
                                                 what_the_code_does="Hamiltonian::prepare / compute return at once when the status is already reached "
                                                 "(a second call is a no-op); HamiltonianPart::prepare rebuilds the block from scratch on every call, "
@@ -624,6 +697,11 @@ def replay(chk, path):
     print(json.dumps(obj, indent=1)[:3000])
     if isinstance(rep, dict) and rep.get("harness") == "h_c03":
         probe_label_bound(chk)
+        return chk.finish()
+    if isinstance(rep, dict) and rep.get("kind") == "same-process":
+        a, b = rep["scenarios"][0], rep["scenarios"][1]
+        edlib.binaries(rep.get("variant", "real"))
+        same_process_stage(chk, True, [(rep.get("variant", "real"), a, 0), (rep.get("variant", "real"), b, 0)])
         return chk.finish()
     if isinstance(rep, dict) and "scenario" in rep:
         mode = rep.get("mode", "unfixed")
